@@ -152,7 +152,7 @@ def extract_jobs(Job, cfg=CFG_NDEBUG, tier="quick"):
             J("extract_files_basename", "h_basename", ["extract_files_basename"], cover=True)]
 
 
-HXC_GROUP = ["hxc_le_word", "hxc_le_quad", "hxc_read_and_verify_header", "hxc_get_track_metadata", "hxc_check_supported", "hxc_side_loop"]
+HXC_GROUP = ["hxc_le_word", "hxc_le_quad", "hxc_read_and_verify_header", "hxc_get_track_metadata", "hxc_check_supported", "hxc_side_loop", "hxc_compute_geometry"]
 
 
 def hxc_jobs(Job, cfg=CFG_NDEBUG, tier="quick"):
@@ -163,7 +163,8 @@ def hxc_jobs(Job, cfg=CFG_NDEBUG, tier="quick"):
             J("hxc_header", "h_header", ["hxc_read_and_verify_header"], cover=True,
               cbmc=["--unwindset", "bytes_copy7.0:8,memcmp.0:8", "--unwinding-assertions"]),
             J("hxc_track_metadata", "h_track_metadata", ["hxc_get_track_metadata"], loops=True, cover=True),
-            J("hxc_check_supported", "h_check_supported", ["hxc_check_supported"]), J("hxc_side_loop", "h_side_loop", ["hxc_side_loop"], loops=True)]
+            J("hxc_check_supported", "h_check_supported", ["hxc_check_supported"]), J("hxc_side_loop", "h_side_loop", ["hxc_side_loop"], loops=True),
+            J("hxc_compute_geometry", "h_compute_geometry", ["hxc_compute_geometry"], loops=True)]
 
 
 TRACK_GROUP = ["crc_cycle", "CRC16Base_update", "CRC16Base_update_bit", "reverse_bit_order", "BitStream_raw_pos",
@@ -511,12 +512,14 @@ def mfm_decoder_jobs(Job, cfg=CFG_NDEBUG, tier="quick"):
 
 
 def dump_jobs(Job, cfg=CFG_NDEBUG, tier="quick"):
-    g = ["dump_get_arg", "dump_sector_addr"]
+    g = ["dump_get_arg", "dump_sector_limits", "dump_sector_addr"]
     import native_replay
     return [Job("D_dump_get_arg_%s" % cfg[0], "harness/dfs_dump.c", "h_get_arg", enforce=["dump_get_arg"],
                 defines=list(cfg[1]), extract=ext(g), tier=tier, cover=True, replay=native_replay.replay_dump_get_arg),
             Job("D_dump_sector_addr_%s" % cfg[0], "harness/dfs_dump.c", "h_sector_addr", enforce=["dump_sector_addr"],
-                defines=list(cfg[1]), extract=ext(g), tier=tier, solver="portfolio")]
+                defines=list(cfg[1]), extract=ext(g), tier=tier, solver="portfolio"),
+            Job("D_dump_sector_limits_%s" % cfg[0], "harness/dfs_dump.c", "h_dump_limits", enforce=["dump_sector_limits"],
+                defines=list(cfg[1]), extract=ext(g), tier=tier)]
 
 
 def selector_jobs(Job, cfg=CFG_NDEBUG, tier="quick"):
